@@ -932,7 +932,12 @@ func (cc *Conn) handleSpecialMessages(r *pool.Message) bool {
 		return true
 	}
 
-	// if waits for concrete message handler
+	// if waits for concrete message handler: only an acknowledgement or a reset answers a message we sent
+	// (they carry ITS message ID); a request of the peer that happens to have the same message ID
+	// is not the answer and must leave the handler in place
+	if r.Type() != message.Acknowledgement && r.Type() != message.Reset {
+		return false
+	}
 	if elem, ok := cc.midHandlerContainer.LoadAndDelete(r.MessageID()); ok {
 		elem.ReleaseMessage(cc)
 		resp := cc.AcquireMessage(cc.Context())
